@@ -49,6 +49,7 @@ def main():
     base = os.path.dirname(s3); s1 = os.path.join(base, 'src'); s2 = os.path.join(base, 'stage2')
     stages = [('stage1', s1), ('stage2', s2), ('stage3', s3)]
     run.check_proofs(deps=['theories/Proofs/LabelsProofs.vo'])
+    NCORPUS = run_corpus(run, PID, s1)          # minimised past failures first
     wd = scratch_dir()
     evals = 0; nontriv = 0; dist = {}; samples = []
     def count(k, n=1): dist[k] = dist.get(k, 0) + n
